@@ -18,6 +18,73 @@ from engine.values import V, NONE, PyStr, PyTuple, Obj, ClassRef, FuncRef
 MAX_PATHS = 4000
 
 
+def split_goal(g, budget=8):
+  """Splits a goal into independently provable parts (conjuncts, both directions of an
+  iff under universal quantifiers).  Smaller VCs are far more stable for E-matching."""
+  out = []
+
+  def rec(f, ctx):
+    # ctx: list of wrappers (callables) to re-apply around the part
+    if len(out) >= 64:
+      out.append(wrap(f, ctx))
+      return
+    if z3.is_and(f) and f.num_args() > 0:
+      for a in f.children():
+        rec(a, ctx)
+      return
+    if z3.is_implies(f):
+      p, q = f.arg(0), f.arg(1)
+      if z3.is_quantifier(p) and p.is_exists():
+        # (exists k. P) => Q   ==   forall k. (P => Q)     (k not free in Q)
+        n = p.num_vars()
+        vs = [z3.FreshConst(p.var_sort(n - 1 - i), 'e') for i in range(n)]
+        body = z3.substitute_vars(p.body(), *vs)
+        bound = list(reversed(vs))
+        rec(z3.Implies(body, q), ctx + [lambda x, bound=bound: z3.ForAll(bound, x)])
+        return
+      if z3.is_and(p) and any(z3.is_quantifier(a) and a.is_exists() for a in p.children()):
+        ex_ = [a for a in p.children() if z3.is_quantifier(a) and a.is_exists()][0]
+        rest = [a for a in p.children() if not a.eq(ex_)]
+        rec(z3.Implies(ex_, z3.Implies(z3.And(*rest) if rest else z3.BoolVal(True), q)), ctx)
+        return
+      if z3.is_or(p) and p.num_args() <= 4:
+        # (A or B) => Q   ==   (A => Q) and (B => Q)
+        for a in p.children():
+          rec(z3.Implies(a, q), ctx)
+        return
+      if z3.is_and(q) or is_bool_eq(q) or z3.is_implies(q) or is_forall(q):
+        rec(q, ctx + [lambda x, p=p: z3.Implies(p, x)])
+        return
+    if is_bool_eq(f):
+      a, b = f.arg(0), f.arg(1)
+      rec(z3.Implies(a, b), ctx)
+      rec(z3.Implies(b, a), ctx)
+      return
+    if is_forall(f):
+      n = f.num_vars()
+      vs = [z3.FreshConst(f.var_sort(n - 1 - i), 'q') for i in range(n)]
+      # de Bruijn: Var(0) is the innermost = last bound variable
+      body = z3.substitute_vars(f.body(), *vs)
+      bound = list(reversed(vs))
+      rec(body, ctx + [lambda x, bound=bound: z3.ForAll(bound, x)])
+      return
+    out.append(wrap(f, ctx))
+
+  def wrap(f, ctx):
+    for w in reversed(ctx):
+      f = w(f)
+    return f
+
+  def is_bool_eq(f):
+    return z3.is_eq(f) and z3.is_bool(f.arg(0))
+
+  def is_forall(f):
+    return z3.is_quantifier(f) and f.is_forall()
+
+  rec(g, [])
+  return out if 0 < len(out) <= 64 else [g]
+
+
 class Ex(StmtMixin, ExprMixin, CallMixin, CompMixin):
 
   def __init__(self, theory, repo):
@@ -29,6 +96,7 @@ class Ex(StmtMixin, ExprMixin, CallMixin, CompMixin):
     self._seen_obl = set()
     self._name_count = {}
     self.used_contracts = set()
+    self.used_anchors = set()
     self.str_lt = z3.Function('str_lt', S.STR.z3(), S.STR.z3(), z3.BoolSort())
     self.reset_path()
     self.top_contract = None
@@ -51,6 +119,8 @@ class Ex(StmtMixin, ExprMixin, CallMixin, CompMixin):
     self.depth = 0
     self.cur_line = None
     self.obl_count = {}
+    self.loop_entry = {}
+    self.loop_head = {}
 
   # -- path condition ---------------------------------------------------------
 
@@ -64,7 +134,16 @@ class Ex(StmtMixin, ExprMixin, CallMixin, CompMixin):
     return f
 
   def assume(self, f):
-    self.pc.append(self._wrap(f))
+    f = self._wrap(f)
+    if z3.is_quantifier(f) or z3.is_and(f) or z3.is_implies(f):
+      # same normalisation as for goals: conjuncts, both directions of iff,
+      # existentials pulled out of antecedents (gives E-matching usable triggers)
+      parts = split_goal(f)
+      self.pc.append(f)
+      if len(parts) > 1 or not parts[0].eq(f):
+        self.pc.extend(parts)   # redundant but differently triggered copies
+    else:
+      self.pc.append(f)
 
   def base_facts(self):
     facts = list(self.theory.axioms)
@@ -85,11 +164,14 @@ class Ex(StmtMixin, ExprMixin, CallMixin, CompMixin):
       nk = (c.label, kind)
       self._name_count[nk] = self._name_count.get(nk, 0) + 1
       name = '%s/%s/%s#%d' % (self.theory.pid, c.label, kind, self._name_count[nk])
-      o = Obligation(name, kind, self.base_facts() + list(self.pc), goal,
-                     line=self.cur_line, detail=detail)
-      o.owner = c.label
-      o.canary = (kind == 'canary')
-      self.obligations.append(o)
+      parts = split_goal(goal)
+      facts = self.base_facts() + list(self.pc)
+      for pi, part in enumerate(parts):
+        pname = name if len(parts) == 1 else '%s.%d' % (name, pi + 1)
+        o = Obligation(pname, kind, facts, part, line=self.cur_line, detail=detail)
+        o.owner = c.label
+        o.canary = (kind == 'canary')
+        self.obligations.append(o)
     # after checking, the goal may be assumed on this path
     self.pc.append(goal)
 
@@ -138,6 +220,19 @@ class Ex(StmtMixin, ExprMixin, CallMixin, CompMixin):
           self.env[k] = v
       try:
         return self.eval(e.args[0])
+      finally:
+        self.env = saved
+    if isinstance(e.func, ast.Name) and e.func.id in ('entry', 'head') and self.pure_mode:
+      # entry(n, expr): value of expr when loop n was reached; head(n, expr): at the start of its current iteration
+      n = e.args[0].value
+      snap = (self.loop_entry if e.func.id == 'entry' else self.loop_head).get(n)
+      if snap is None:
+        raise Unsupported('%s(%d, ...) used outside loop %d' % (e.func.id, n, n))
+      saved = self.env
+      self.env = dict(saved)
+      self.env.update(snap)
+      try:
+        return self.eval(e.args[1])
       finally:
         self.env = saved
     return CallMixin.ev_Call(self, e)
@@ -342,6 +437,9 @@ class Ex(StmtMixin, ExprMixin, CallMixin, CompMixin):
       if not self.dec.advance():
         break
     self.exits = exits
+    for anchor in c.asserts:
+      if anchor not in self.used_anchors:
+        raise ContractMisfit('%s: no statement starts with the anchor %r' % (c.label, anchor))
     return self.obligations[n_before:], self.paths, exits
 
   def at_return(self, c, value):
@@ -377,6 +475,13 @@ class Ex(StmtMixin, ExprMixin, CallMixin, CompMixin):
       g = self.spec(c.raises[h])
       self.env = saved
       self.oblige(g, 'raises', 'raises %s only if: %s' % (h, c.raises[h]))
+      return
+    if r.excname in c.raises_ensures:
+      if getattr(c, 'canary', False):
+        self.oblige(z3.BoolVal(False), 'canary', 'raise path reachable')
+        return
+      for j, e in enumerate(c.raises_ensures[r.excname]):
+        self.oblige(self.spec(e), 'raises', 'at raise %s[%d]: %s' % (r.excname, j, e))
       return
     if r.excname in c.may_raise:
       return
